@@ -233,6 +233,12 @@ def templates(tier):
         for f in ("math.exp({})", "math.sqrt(abs({}))", "numpy.exp({})", "np.sqrt(abs({}))", "abs({})", "math.log(abs({}) + 1.0)",
                   "pow({}, 2)", "math.sin({})", "math.floor({})", "math.ceil({})"):
             yield "libcall", "return " + f.format(e)
+        # library functions whose usual symbolic stand-ins do not mean the same: strict comparisons at equality, roots of
+        # negative numbers, element-wise maximum / minimum, the identity np.positive
+        for f in ("np.greater({}, y) * x + 1.0", "np.less({}, y) * x + 2.0", "np.greater_equal({}, y) * x", "np.less_equal({}, y) * x",
+                  "math.cbrt({})", "np.cbrt({}) + y", "np.positive({}) + y", "np.maximum({}, y)", "np.minimum({}, y) - x", "np.negative({}) * y",
+                  "np.sign({}) * y", "math.copysign(1.0, {}) * y" , "np.square({}) - y", "np.absolute({}) - x"):
+            yield "libcall-lookalike", "return " + f.format(e)
         yield "libcall2", f"return min({e}, y)"
         yield "libcall2", f"return max({e}, 1.0)"
         yield "const-module", f"return ({e}) * K"
